@@ -42,6 +42,9 @@ var pollClient = &http.Client{Timeout: 6 * time.Second, Transport: &http.Transpo
 
 func childDirected(b run.Batch, r *ev.Result) {
 	rng := rand.New(rand.NewSource(b.Seed))
+	if !abandonCells(b, r, rng) || abandoned.Load() {
+		return
+	}
 	c, err := newCW(filepath.Join(b.Dir, "directed"), rng, r, worldOpt{registered: true})
 	if err != nil {
 		r.Inconc("directed: " + err.Error())
@@ -113,6 +116,16 @@ func rotationPolls(w *cw, r *ev.Result, devs []*drv.Dev, rotations int) bool {
 			}
 		}(g)
 	}
+	// clients that give up after 1-20 ms, while the mutex is busy with the rotations and the polls
+	var abandonedReqs atomic.Int64
+	var awg sync.WaitGroup
+	for g := 0; g < 3; g++ {
+		awg.Add(1)
+		go func(g int) {
+			defer awg.Done()
+			abandoningPoller(w, g, &stop, &abandonedReqs, devs[0].Key.Pub)
+		}(g)
+	}
 	type span struct{ from, to int64 }
 	var rots []span
 	ok := true
@@ -146,6 +159,8 @@ func rotationPolls(w *cw, r *ev.Result, devs []*drv.Dev, rotations int) bool {
 	}
 	stop.Store(true)
 	wg.Wait()
+	awg.Wait()
+	r.Count("directed.requests_with_1_to_20ms_timeouts", abandonedReqs.Load())
 	ia, ra := drv.ImpactArrive.Load(), drv.RotationArrive.Load()
 	drv.GateRotation(true)
 	drv.GateImpact(true)
